@@ -23,6 +23,7 @@ off-by-one, another slice) breaks them.
 -/
 import MenpoModel.Generated.C10Src
 import MenpoModel.Lemmas.C10Src
+import MenpoModel.Core.PyLoop
 
 set_option linter.unusedSimpArgs false
 set_option linter.unusedTactic false
@@ -87,6 +88,19 @@ theorem npSumBools_map {α : Type} (f : α → Bool) (l : List α) :
   | cons x t ih =>
     simp only [PyVal.npSumBools, List.map_cons, List.filter_cons] at ih ⊢
     cases f x <;> simp_all
+
+/-- the same count written as a loop: `n = 0; for x in l: if p(x): n += c` -/
+theorem forLoop_count {α : Type} (l : List α) (p : α → Bool) (k c : Int) :
+    MenpoModel.Py.forLoop (PyVal.int k) l (fun acc it => if p it = true then acc + PyVal.int c else acc)
+      = PyVal.int (k + c * ((l.filter p).length : Nat)) := by
+  induction l generalizing k with
+  | nil => simp [MenpoModel.Py.forLoop]
+  | cons x t ih =>
+    simp only [MenpoModel.Py.forLoop_cons, List.filter_cons]
+    cases p x
+    · simpa using ih k
+    · simp only [if_true, int_add_int, ih, List.length_cons, Nat.cast_add, Nat.cast_one]
+      congr 1; ring
 
 attribute [local ext] St
 
@@ -162,8 +176,8 @@ theorem genSetActive_none (fl : Fl) (s : St) : genSetActive fl s .none = .error 
 theorem genSetActive_float (fl : Fl) (s : St) (r : Rat) (h : s.nActive ≤ s.rows) :
     genSetActive fl s (.float r) = s.setActive (.floatObsClamped r (fl.tvr s) (fl.cum s)) := by
   simp only [genSetActive, St.setActive, St.finalSet, genNComponents_eq, genNActiveComponents_eq, isFloat_float,
-    isInt_float, npSumBools_map, List.filter_map, List.length_map, Function.comp_def, PyVal.pmin, npint_add_int,
-    ofNat_eq, PyVal.toNat, float_lt_float, coe_rat, float_le_float]
+    isInt_float, npSumBools_map, ofNat_eq, forLoop_count, List.filter_map, List.length_map, Function.comp_def,
+    PyVal.pmin, npint_add_int, int_add_int, PyVal.toNat, float_lt_float, coe_rat, float_le_float]
   src_close
 
 theorem genSetActive_eq (fl : Fl) (s : St) (v : PyVal) (h : v.isFloat = true → s.nActive ≤ s.rows) :
